@@ -12,6 +12,9 @@ from pathlib import Path
 
 from . import fsseam
 
+import re
+
+_ADDR = re.compile(r" at 0x[0-9a-fA-F]+")
 _pa = None  # the pytestarch package, imported lazily by init()
 _ModuleNameFilter = None
 
@@ -211,7 +214,8 @@ class Session:
             return {"r": "skip"}
         try:
             target = ns[op["obj"]]
-            return {"r": "ok", "str": str(target), "cls": type(target).__name__}
+            text = _ADDR.sub(" at 0x?", str(target))  # default object repr: address is noise
+            return {"r": "ok", "str": text, "cls": type(target).__name__}
         except Exception as e:  # noqa: BLE001
             return {"r": "exc", **_exc_info(e, self.scratch)}
 
